@@ -239,7 +239,7 @@ func (c *treeCM) TransactionsForPartialBlock([]types.Hash256) ([]types.Transacti
 
 var c11Lies = []string{"invalid-block-in-heavier-chain", "header-insufficient-work", "header-wrong-parent", "header-timestamp", "headers-remaining-lie", "blocks-wrong-count", "blocks-too-many", "blocks-mismatch", "blocks-reordered", "bogus-checkpoint", "checkpoint-foundation-address", "checkpoint-state-of-other-block", "checkpoint-without-payouts", "stall", "garbage-nodes", "honest"}
 
-var c11Announcements = []string{"none", "header-insufficient-work", "outline-invalid-block", "outline-wrong-missing-transactions", "empty-transaction-set", "transaction-set-unknown-basis", "header-unknown-parent"}
+var c11Announcements = []string{"none", "header-insufficient-work", "outline-invalid-block", "outline-wrong-missing-transactions", "empty-transaction-set", "transaction-set-unknown-basis", "header-unknown-parent", "outline-insufficient-work-off-tip"}
 
 func runC11(e *sim.Env) {
 	now := time.Now()
@@ -267,7 +267,7 @@ func runC11(e *sim.Env) {
 	dominant := tree.MakeDominant(e, bo)
 
 	lie := c11Lies[e.Intn(len(c11Lies))]
-	ann := c11Announcements[e.Pick(3, 1, 1, 1, 1, 1, 1)]
+	ann := c11Announcements[e.Pick(3, 1, 1, 1, 1, 1, 1, 1)]
 	if attackTip == nil && lie == "invalid-block-in-heavier-chain" {
 		lie = "blocks-mismatch"
 	}
@@ -289,7 +289,8 @@ func runC11(e *sim.Env) {
 	}
 	// victim
 	vs := newChainSUT(e, net, simdisk.New())
-	victim := newNetNode(e, "C11", net, nw, 1, nil, vs, nodeOpts()...)
+	vcm := &stallingCM{ChainManager: vs.cm}
+	victim := newNetNode(e, "C11", net, nw, 1, vcm, vs, nodeOpts()...)
 	e.OnCleanup(victim.close)
 	start := dominant.Ancestor(uint64(e.Range(0, int(dominant.Height))))
 	feed(e, "C11", victim, start)
@@ -411,6 +412,14 @@ func runC11(e *sim.Env) {
 			e.Probe("victim_not_settled_at_announcement")
 		}
 		sent := false
+		// 1 announcement in 2: the sender hangs up right after sending, and the
+		// victim is slow to look things up (so that it is still validating when
+		// the connection goes away); misbehaviour stays misbehaviour
+		hangUp := e.Chance(1, 2)
+		if hangUp {
+			vcm.stateStall.Store(int64(time.Duration(e.Range(1500, 3000)) * time.Millisecond))
+			e.Fault("sender-hangs-up-after-announcement")
+		}
 		announce := func(fn func(p *syncer.Peer) error) bool {
 			ok := false
 			if e.Verbose {
@@ -429,6 +438,12 @@ func runC11(e *sim.Env) {
 				e.Logf("announce %s to %s (inbound=%v): err=%v perr=%v", ann, p.Addr(), p.Inbound, err, p.Err())
 				if err == nil && p.Err() == nil {
 					ok = true
+				}
+				if hangUp {
+					// (not before the message has arrived: closing a connection
+					// discards what is still on its way)
+					time.Sleep(time.Duration(e.Range(400, 700)) * time.Millisecond)
+					p.Close()
 				}
 			}
 			if !ok {
@@ -451,6 +466,24 @@ func runC11(e *sim.Env) {
 			if child.Block.V2 != nil && h.ID().CmpWork(ps.PoWTarget()) < 0 {
 				if announce(func(p *syncer.Peer) error { return p.RelayV2Header(h, 5*time.Second) }) {
 					expectBan = "insufficient work"
+				}
+			}
+		case "outline-insufficient-work-off-tip":
+			// a block on the parent of the victim's tip (known, not the tip)
+			// whose id misses that parent's target
+			if vtip.Parent != nil && child.Block.V2 != nil {
+				sib := tree.Extend(e, vtip.Parent, cbo)
+				ps := vtip.Parent.L.State
+				if sib.Block.V2 != nil {
+					ob := gateway.OutlineBlock(sib.Block, nil, nil)
+					for tries := 0; tries < 1<<12 && ob.ID(ps).CmpWork(ps.PoWTarget()) >= 0; tries++ {
+						ob.Nonce += ps.NonceFactor()
+					}
+					if ob.ID(ps).CmpWork(ps.PoWTarget()) < 0 {
+						if announce(func(p *syncer.Peer) error { return p.RelayV2BlockOutline(ob, 5*time.Second) }) {
+							expectBan = "insufficient work"
+						}
+					}
 				}
 			}
 		case "header-unknown-parent":
@@ -478,7 +511,9 @@ func runC11(e *sim.Env) {
 				cm.wrongTxnsFor = child.ID
 				cm.mu.Unlock()
 				ob := gateway.OutlineBlock(child.Block, child.Block.Transactions, child.Block.V2Transactions())
-				if announce(func(p *syncer.Peer) error { return p.RelayV2BlockOutline(ob, 5*time.Second) }) && settled {
+				// (a sender that has hung up cannot be asked for the missing
+				// transactions, so it never gets to answer wrongly)
+				if announce(func(p *syncer.Peer) error { return p.RelayV2BlockOutline(ob, 5*time.Second) }) && settled && !hangUp {
 					expectBan = "wrong missing transactions"
 				}
 			}
@@ -495,7 +530,8 @@ func runC11(e *sim.Env) {
 			})
 		}
 		_ = sent
-		time.Sleep(3 * time.Second)
+		time.Sleep(6 * time.Second)
+		vcm.stateStall.Store(0)
 		poll()
 	}
 	c11Checkpoint(e, net, nw, tree, dominant, honest, byz, byzCMs, nodeOpts)
@@ -910,7 +946,7 @@ var _ = sim.NewEnv
 func init() {
 	register(&Prop{
 		ID: "C11", Run: runC11, Race: true, RunTimeout: 20, Quick: 1500, Thorough: 40000, Level: "exploration",
-		Rule:        "one run = a victim node (real syncer + gateway + mux + manager) started on a drawn ancestor of the honest chain, 1-3 honest real nodes, and 1-2 Byzantine nodes: real syncers whose ChainManager is a harness object serving a chosen path of the generated tree (optionally a heavier header-valid chain with a single-field-invalid block in the middle) and lying in one drawn way {insufficient-work header, wrong parent, bad timestamp, wrong remaining count, fewer / more / other-branch / reordered blocks, tampered checkpoint state (counters, foundation addresses, state of another block), a checkpoint block stripped of its miner payouts, stalling past the timeout, garbage node addresses, honest}; in 1 run in 3 a raw peer that spoils handshakes and writes raw bytes into mux streams (unknown ids, random bytes, truncated encodings, absurd length prefixes, trailing garbage, silence); after the victim has synced, one drawn announcement sent by the first Byzantine node straight to the victim {header with insufficient work, header with unknown parent, outline of an invalid block on the victim's tip, outline whose missing transactions are answered with other transactions, empty transaction set, transaction set with unknown basis}; oracles at every poll: C01 audit of the victim, total work never decreases, no recovered handler panic, no process death; 40 simulated minutes after the Byzantine peers left the victim is on the heaviest honest chain; provable misbehaviour (insufficient-work header, invalid outline block, wrong missing transactions, empty set) is reported to PeerStore.Ban and honest peers are not; distinct = (regime, lie, announcement); all runs non-trivial",
+		Rule:        "one run = a victim node (real syncer + gateway + mux + manager) started on a drawn ancestor of the honest chain, 1-3 honest real nodes, and 1-2 Byzantine nodes: real syncers whose ChainManager is a harness object serving a chosen path of the generated tree (optionally a heavier header-valid chain with a single-field-invalid block in the middle) and lying in one drawn way {insufficient-work header, wrong parent, bad timestamp, wrong remaining count, fewer / more / other-branch / reordered blocks, tampered checkpoint state (counters, foundation addresses, state of another block), a checkpoint block stripped of its miner payouts, stalling past the timeout, garbage node addresses, honest}; in 1 run in 3 a raw peer that spoils handshakes and writes raw bytes into mux streams (unknown ids, random bytes, truncated encodings, absurd length prefixes, trailing garbage, silence); after the victim has synced, one drawn announcement sent by the first Byzantine node straight to the victim {header with insufficient work, header with unknown parent, outline of an invalid block on the victim's tip, outline whose missing transactions are answered with other transactions, empty transaction set, transaction set with unknown basis, outline without sufficient work on the parent of the victim's tip}, in half of the cases with the sender hanging up right after sending while the victim is slow to look states up; oracles at every poll: C01 audit of the victim, total work never decreases, no recovered handler panic, no process death; 40 simulated minutes after the Byzantine peers left the victim is on the heaviest honest chain; provable misbehaviour (insufficient-work header or outline, invalid outline block, wrong missing transactions, empty set) is reported to PeerStore.Ban and honest peers are not; distinct = (regime, lie, announcement); all runs non-trivial",
 		Real:        []string{"victim and honest nodes: syncer.Syncer, gateway, mux, chain.Manager, chain.DBStore", "Byzantine nodes: real syncer / gateway / mux (well-formed encodings) over a lying ChainManager"},
 		Stub:        []string{"network: simnet", "peer store: harness peerStore with real bans", "disk: simdisk.DB", "Byzantine chain manager: harness treeCM"},
 		Assumptions: []string{"ban expectations only for misbehaviour the code itself calls ban-worthy"},
